@@ -47,6 +47,13 @@ def main():
                           "as_expected": bool(valid and ((not any(caught.values())) if preserving else any(caught.values())))}
         print("%-7s %-10s valid=%s as_expected=%s alarms=%s silent=%s" % (o["id"], table[o["id"]]["kind"], valid,
               table[o["id"]]["as_expected"], table[o["id"]]["caught_by"], table[o["id"]]["missed_by"]))
+    if sys.argv[1:] and os.environ.get("SEED_MERGE"):
+        # SEED_MERGE=1 with explicit ids: update just those rows of RESULTS.json
+        merged = json.load(open(os.path.join(SEEDED, "RESULTS.json")))
+        merged.update(table)
+        with open(os.path.join(SEEDED, "RESULTS.json"), "w") as fh:
+            json.dump(merged, fh, indent=1, sort_keys=True)
+            fh.write("\n")
     if not sys.argv[1:]:
         with open(os.path.join(SEEDED, "RESULTS.json"), "w") as fh:
             json.dump(table, fh, indent=1, sort_keys=True)
